@@ -99,6 +99,8 @@ class Runner:
         # harness-only part of the script: [[kind, index, style], ...] = outcomes (accept / ret None / ok) that a
         # COROUTINE handler realises by letting asyncio.CancelledError escape; the model keeps the scripted outcome
         self.cancel = {(k, i): st for k, i, st in cfg.get('cancel', [])}
+        self.runtime_regs = False     # a 'register' op was executed
+        self.gens = {}                # ('fn', ns, ev) / ('cls', ns) -> number of run-time registrations of that key
         orig_gen = self.w.eio.generate_id
 
         def gen():
@@ -162,9 +164,12 @@ class Runner:
         ns = slot[1] if slot[1] != '*' else (args[pos - 1] if pos >= 1 and isinstance(args[pos - 1], str) else '/')
         return {'event': 'bye' if kind == 'disconnect' else 'note', 'data': {'n': n}, 'to': args[pos], 'namespace': ns}
 
-    def _invoked(self, slot, kind, args):
+    def _invoked(self, slot, kind, args, gen=0):
         args = [a for a in args if not (isinstance(a, dict) and 'verif.tid' in a)]
         self.records.append(('invoke', slot, list(args)))
+        if self.runtime_regs:
+            # which of the handlers registered under this key so far ran (0 = the one the server started with)
+            self.records.append(('handler_gen', slot, gen))
         out = self._outcome(kind)
         if self.coro and out == NEUTRAL[kind] and (kind, self._last_index) in self.cancel:
             # accepted / returned None / disconnect handled -- but the coroutine ends with CancelledError
@@ -188,26 +193,26 @@ class Runner:
             return self.hold(out['ret'], 'returned')
         return None
 
-    def _mk(self, slot, kind):
+    def _mk(self, slot, kind, gen=0):
         if kind == 'connect' and self.cfg.get('req_auth') and slot[1] != '*':
             # connect handler with a REQUIRED auth parameter: a CONNECT without auth payload reaches it through
             # the library's TypeError retry path, with auth=None
             if self.coro:
                 async def h3(sid, environ, auth):
-                    r = self._invoked(slot, kind, (sid, environ) + (() if auth is None else (auth,)))
+                    r = self._invoked(slot, kind, (sid, environ) + (() if auth is None else (auth,)), gen)
                     if isinstance(r, _Cancel):
                         await r.realise()
                     return r
             else:
                 def h3(sid, environ, auth):
-                    return self._invoked(slot, kind, (sid, environ) + (() if auth is None else (auth,)))
+                    return self._invoked(slot, kind, (sid, environ) + (() if auth is None else (auth,)), gen)
             return h3
         if self.coro:
             async def h(*args):
                 plan = self._active_plan(slot, kind, [a for a in args if not (isinstance(a, dict) and 'verif.tid' in a)])
                 if plan:
                     await self.sio.emit(plan['event'], plan['data'], to=plan['to'], namespace=plan['namespace'])
-                r = self._invoked(slot, kind, args)
+                r = self._invoked(slot, kind, args, gen)
                 if isinstance(r, _Cancel):
                     await r.realise()
                 return r
@@ -216,18 +221,37 @@ class Runner:
                 plan = self._active_plan(slot, kind, [a for a in args if not (isinstance(a, dict) and 'verif.tid' in a)])
                 if plan and not self.w.is_async:
                     self.sio.emit(plan['event'], plan['data'], to=plan['to'], namespace=plan['namespace'])
-                return self._invoked(slot, kind, args)
+                return self._invoked(slot, kind, args, gen)
         return h
 
     def _install_handlers(self):
         for ns, ev in self.cfg['fn']:
             self.sio.on(ev, self._mk(('fn', ns, ev), self._kind(ev)), namespace=ns)
+        self._install_cls(self.cfg['cls'])
+
+    def _register(self, op):
+        """the application registers handlers while the server runs: `fn` = [[ns, ev], ...] through on() (a NEW
+        function each time, also for a key that has one already), `cls` = [[ns, [methods]], ...] through
+        register_namespace() (replaces the namespace's object)"""
+        self.runtime_regs = True
+
+        def go():
+            for ns, ev in op.get('fn', []):
+                key = ('fn', ns, ev)
+                self.gens[key] = self.gens.get(key, 0) + 1
+                self.sio.on(ev, self._mk(key, self._kind(ev), self.gens[key]), namespace=ns)
+            for ns, _ms in op.get('cls', []):
+                self.gens[('cls', ns)] = self.gens.get(('cls', ns), 0) + 1
+            self._install_cls(op.get('cls', []))
+        return self.w.run(go)
+
+    def _install_cls(self, clss):
         base = socketio.AsyncNamespace if self.w.is_async else socketio.Namespace
-        for ns, methods in self.cfg['cls']:
+        for ns, methods in clss:
             attrs = {}
             for m in methods:
                 ev = m[3:]
-                fn = self._mk(('cls', ns, m), self._kind(ev))
+                fn = self._mk(('cls', ns, m), self._kind(ev), self.gens.get(('cls', ns), 0))
 
                 def bind(fn):
                     if self.coro:
@@ -271,33 +295,9 @@ class Runner:
         elif kind == 'lost':
             res, contained = w.lose(op['t'], op.get('reason') or 'transport close')
         elif kind == 'emit':
-            kw = {}
-            if op.get('to') is not None:
-                to = op['to']
-                kw['to'] = [self.real(r) for r in to['many']] if 'many' in to else self.real(to['one'])
-            skip = [self.real(s) for s in op.get('skip', [])]
-            if op.get('skip_scalar'):
-                kw['skip_sid'] = skip[0]
-            elif skip or op.get('skip_list'):
-                kw['skip_sid'] = skip
-            if op.get('cb') is not None:
-                tok = op['cb']
-
-                if self.coro:
-                    async def cb(*args, tok=tok):
-                        self.records.append(('callback', tok, list(args)))
-                        await asyncio.sleep(0)        # a suspension point inside the application callback
-                        if tok % 3 == 2:
-                            self.records.append(('callback_raised', tok))
-                            raise HandlerError('scripted callback failure')
-                else:
-                    def cb(*args, tok=tok):
-                        self.records.append(('callback', tok, list(args)))
-                        if tok % 3 == 2:
-                            self.records.append(('callback_raised', tok))
-                            raise HandlerError('scripted callback failure')
-                kw['callback'] = cb
-            res = w.api('emit', op['ev'], self.hold(op['data'], 'emitted'), namespace=op['ns'], **kw)
+            res = w.api('emit', op['ev'], self.hold(op['data'], 'emitted'), **self._emit_kw(op))
+        elif kind == 'register':
+            res = self._register(op)
         elif kind == 'call':
             res = self._call(op)
         elif kind == 'disconnect':
@@ -328,6 +328,85 @@ class Runner:
         else:
             raise ValueError(kind)
         return self._observe(op, res, contained)
+
+    def _emit_kw(self, op):
+        """keyword arguments of emit() for an 'emit' op (the same for both families, top level or nested in a call)"""
+        kw = {'namespace': op['ns']}
+        if op.get('to') is not None:
+            to = op['to']
+            kw['to'] = [self.real(r) for r in to['many']] if 'many' in to else self.real(to['one'])
+        skip = [self.real(s) for s in op.get('skip', [])]
+        if op.get('skip_scalar'):
+            kw['skip_sid'] = skip[0]
+        elif skip or op.get('skip_list'):
+            kw['skip_sid'] = skip
+        if op.get('cb') is not None:
+            kw['callback'] = self._mk_callback(op['cb'], op.get('cb_style'))
+        return kw
+
+    def _mk_callback(self, tok, style=None):
+        """The application's acknowledgement callback for token `tok`.
+
+        What the library is handed is a harness wrapper that records the CALL ATTEMPT ('callback', tok, args) — the
+        model's `callback tok args` — and then delegates to the application function proper, which has the scripted
+        signature (`style['arity']`: 0, 1, 2, 3 positional parameters, '*' = *args, 'opt' = three optional ones),
+        records that its body was ENTERED and then ends the scripted way (`style['raises']`: an exception class name,
+        'TypeError' being a genuine one out of the body's own arithmetic).  A call with an argument count the
+        signature does not take raises TypeError before the body is entered, as for any Python function."""
+        if style is None:
+            style = {'arity': '*', 'raises': 'HandlerError' if tok % 3 == 2 else None}
+        arity, raises = style.get('arity', '*'), style.get('raises')
+
+        def body(args):
+            self.records.append(('callback_entered', tok, list(args)))
+
+        def end():
+            if raises:
+                self.records.append(('callback_raised', tok))
+                if raises == 'TypeError':
+                    return 1 + 'acknowledged'         # the application's own bug: TypeError out of the body
+                raise {'HandlerError': HandlerError, 'ValueError': ValueError, 'KeyError': KeyError,
+                       'AttributeError': AttributeError, 'LookupError': LookupError}[raises]('scripted callback failure')
+
+        if self.coro:
+            async def fin(args):
+                body(args)
+                await asyncio.sleep(0)        # a suspension point inside the application callback
+                end()
+        else:
+            def fin(args):
+                body(args)
+                end()
+        if arity == 0:
+            def inner():
+                return fin(())
+        elif arity == 1:
+            def inner(a):
+                return fin((a,))
+        elif arity == 2:
+            def inner(a, b):
+                return fin((a, b))
+        elif arity == 3:
+            def inner(a, b, c):
+                return fin((a, b, c))
+        elif arity == 'opt':
+            _no = object()
+
+            def inner(a=_no, b=_no, c=_no):
+                return fin(tuple(x for x in (a, b, c) if x is not _no))
+        else:
+            def inner(*args):
+                return fin(args)
+
+        def cb(*args):
+            self.records.append(('callback', tok, list(args)))
+            try:
+                return inner(*args)           # a coroutine when the application's callbacks are coroutine functions
+            except TypeError:
+                if not any(r[0] == 'callback_raised' and r[1] == tok for r in self.records):
+                    self.records.append(('callback_raised', tok))      # the signature rejected the arguments
+                raise
+        return cb
 
     def _burst(self, op):
         """several frames at once: concurrently (one task each) on the asyncio server, one after the
@@ -388,9 +467,46 @@ class Runner:
         return self.w.run(blk)
 
     def _call(self, op):
-        """call(): the wait primitive is scripted — while the caller 'waits', the nested ops run."""
+        """call(): the wait primitive is scripted — while the caller 'waits', the nested ops run (frames, transport
+        loss, emits with callbacks and further call()s, on both families); it reports a timeout unless the call's own
+        acknowledgement was processed meanwhile."""
+        nested_obs, factory = self._scripted_event(op)
+        orig = self.w.eio.create_event
+        self.w.eio.create_event = factory
+        try:
+            res = self.w.api('call', op['ev'], self.hold(op['data'], 'emitted'), sid=self.real(op['sid']),
+                             namespace=op['ns'], timeout=5)
+        finally:
+            self.w.eio.create_event = orig
+        self._nested = nested_obs
+        return res
+
+    async def _call_async(self, op):
+        """a call() issued while another call() of the asyncio server waits"""
+        nested_obs, factory = self._scripted_event(op)
+        orig = self.w.eio.create_event
+        self.w.eio.create_event = factory
+        try:
+            try:
+                res = ('ok', await self.sio.call(op['ev'], self.hold(op['data'], 'emitted'), sid=self.real(op['sid']),
+                                                 namespace=op['ns'], timeout=5))
+            except Exception as ex:   # noqa
+                res = ('exc', type(ex).__name__)
+        finally:
+            self.w.eio.create_event = orig
+        self._nested = nested_obs
+        return res
+
+    def _scripted_event(self, op):
         runner = self
         nested_obs = []
+
+        def own_emit():
+            # what call() itself put on the wire before it started to wait: observation 0 of the nested list
+            saved = runner.records
+            runner.records = []
+            nested_obs.append(runner._observe({'op': 'call_emit'}, ('ok', None), []))
+            runner.records = saved
 
         class ScriptedEvent:
             def __init__(self):
@@ -406,12 +522,12 @@ class Runner:
                 self.flag = False
 
             def wait(self, timeout=None):
+                own_emit()
                 if runner.w.is_async:
                     async def w():
                         for o in op['during']:
                             nested_obs.append(await runner._do_async(o))
                         if not self.flag:
-                            import asyncio
                             raise asyncio.TimeoutError()
                         return True
                     return w()
@@ -421,32 +537,31 @@ class Runner:
                     runner.records = saved
                 return self.flag
 
-        orig = self.w.eio.create_event
-        self.w.eio.create_event = lambda *a, **k: ScriptedEvent()
-        try:
-            res = self.w.api('call', op['ev'], self.hold(op['data'], 'emitted'), sid=self.real(op['sid']),
-                             namespace=op['ns'], timeout=5)
-        finally:
-            self.w.eio.create_event = orig
-        self._nested = nested_obs
-        return res
+        return nested_obs, (lambda *a, **k: ScriptedEvent())
 
     async def _do_async(self, o):
-        # nested ops inside an asyncio call(): only frames / loss are supported
+        # nested ops inside an asyncio call(): frames / loss / emit (with callback) / call
         saved = self.records
         self.records = []
-        s = self.w.socks[o['t']]
         from engineio import packet as eio_packet
         before = len(self.w.eio_log.errors)
+        res = ('ok', None)
         if o['op'] == 'frame':
-            await s.receive(eio_packet.Packet(eio_packet.MESSAGE, o['text']))
+            await self.w.socks[o['t']].receive(eio_packet.Packet(eio_packet.MESSAGE, o['text']))
         elif o['op'] == 'frameval':
-            await s.receive(eio_packet.Packet(eio_packet.MESSAGE, o['v']))
+            await self.w.socks[o['t']].receive(eio_packet.Packet(eio_packet.MESSAGE, o['v']))
         elif o['op'] == 'lost':
-            await s.close(wait=False, abort=True, reason=o.get('reason') or 'transport close')
+            await self.w.socks[o['t']].close(wait=False, abort=True, reason=o.get('reason') or 'transport close')
+        elif o['op'] == 'emit':
+            try:
+                await self.sio.emit(o['ev'], self.hold(o['data'], 'emitted'), **self._emit_kw(o))
+            except Exception as ex:   # noqa
+                res = ('exc', type(ex).__name__)
+        elif o['op'] == 'call':
+            res = await self._call_async(o)
         else:
             raise ValueError('nested op %r' % (o,))
-        obs = self._observe(o, ('ok', None), self.w.eio_log.errors[before:])
+        obs = self._observe(o, res, self.w.eio_log.errors[before:])
         self.records = saved
         return obs
 
@@ -498,6 +613,10 @@ class Runner:
                 obs['invokes'].append((r[1], self._canon(r[2])))
             elif r[0] == 'callback':
                 obs['callbacks'].append((r[1], self._canon(r[2])))
+            elif r[0] == 'handler_gen':
+                obs.setdefault('handler_gens', []).append((r[1], r[2]))
+            elif r[0] == 'callback_entered':
+                obs.setdefault('cb_entered', []).append((r[1], self._canon(r[2])))
             elif r[0] == 'handler_raised':
                 obs['handler_raised'] += 1
             elif r[0] == 'callback_raised':
@@ -516,15 +635,28 @@ class Runner:
             obs['result'] = self._canon(res[1])
         if op['op'] == 'call':
             nested = getattr(self, '_nested', [])
+            self._nested = []
+            outcomes = []
             for n in nested:
                 for tid, fr in n['sends'].items():
                     obs['sends'].setdefault(tid, []).extend(fr)
                 obs['invokes'] += n['invokes']
                 obs['callbacks'] += n['callbacks']
                 obs['raised'] = obs['raised'] or n['raised']
+                for key in ('cb_entered', 'app_modified', 'escaped'):
+                    if n.get(key):
+                        obs.setdefault(key, []).extend(n[key])
+                outcomes += n.get('call_outcomes', [])
+            # per nested op (0 = what call() itself sent before waiting), for oracles that follow the ids on the wire
+            obs['nested'] = nested
             if res[0] == 'ok':
                 obs['result'] = self._canon(res[1])
                 obs['has_result'] = True
+            # how every call() of this step ended, innermost first (the order in which they return)
+            r = obs['result']
+            outcomes.append('timeout' if res[1] == 'TimeoutError' and res[0] == 'exc' else
+                            ['raised', res[1]] if res[0] == 'exc' else ['result', list(r) if isinstance(r, tuple) else r])
+            obs['call_outcomes'] = outcomes
         return obs
 
     # ---- introspection for generators / oracles
@@ -694,6 +826,8 @@ def op_wire(op):
         return {'op': k, 'sid': s(op['sid']), 'ns': s(op['ns']), 'k': s(op['k']), 'v': C.j2w(op['v'])}
     if k == 'settle':
         return {'op': 'settle'}
+    if k == 'register':
+        raise ValueError('register is expanded by model_run (the registry from then on)')
     raise ValueError(k)
 
 
@@ -712,7 +846,7 @@ def representable(op):
 
 def model_obs(ans):
     obs = {'sends': {}, 'invokes': [], 'callbacks': [], 'result': None, 'exc': None, 'raised': False,
-           'timeout': False}
+           'timeout': False, 'call_outcomes': []}
     for o in ans['outs']:
         if 'send' in o:
             t = C.w2s(o['send'])
@@ -731,11 +865,30 @@ def model_obs(ans):
         elif 'raised' in o:
             obs['raised'] = True
         elif 'result' in o:
+            # with call()s nested in a call() the outs are the flattened list: the outermost call ends last
             obs['result'] = C.w2j(o['result'])
             obs['has_result'] = True
+            obs['timeout'] = False
+            obs['call_outcomes'].append(['result', obs['result']])
         elif 'timeout' in o:
             obs['timeout'] = True
+            obs['result'] = None
+            obs.pop('has_result', None)
+            obs['call_outcomes'].append('timeout')
     return obs
+
+
+def registry_after(cfg, op):
+    """the configuration with the registries as they are after a 'register' op: on() adds / replaces the function
+    handler of a key, register_namespace() replaces the namespace's object"""
+    new = dict(cfg)
+    new['fn'] = [list(f) for f in cfg['fn']]
+    for f in op.get('fn', []):
+        if list(f) not in new['fn']:
+            new['fn'].append(list(f))
+    repl = {ns for ns, _ms in op.get('cls', [])}
+    new['cls'] = [c for c in cfg['cls'] if c[0] not in repl] + [[ns, list(ms)] for ns, ms in op.get('cls', [])]
+    return new
 
 
 def _nested_as_blocks(o):
@@ -745,12 +898,18 @@ def _nested_as_blocks(o):
 
 def model_run(cfg, ops):
     flat = []
+    now = cfg
     for o in ops:
         if o['op'] == 'session_nested':
             flat.extend(_nested_as_blocks(o))
+        elif o['op'] == 'register':
+            # the model's `step` takes the registry as a parameter: from here on it is the extended one
+            now = registry_after(now, o)
+            w = cfg_wire(now)['cfg']
+            flat.append({'_wire': {'op': 'reg', 'fn': w['fn'], 'cls': w['cls']}})
         else:
             flat.extend(o['frames'] if o['op'] == 'burst' else [o])
-    lines = [cfg_wire(cfg)] + [op_wire(o) for o in flat]
+    lines = [cfg_wire(cfg)] + [o['_wire'] if '_wire' in o else op_wire(o) for o in flat]
     answers = C.batch('server', lines + [{'op': 'snapshot'}])
     obs = [model_obs(a) for a in answers[1:-1]]
     out = []
@@ -814,6 +973,10 @@ def compare(op, impl, model):
             r = list(r) if isinstance(r, tuple) else r
             if model['timeout'] or not C.same(r, model['result']):
                 diffs.append('call() result: impl=%r model=%r' % (impl['result'], model['result']))
+        io, mo = impl.get('call_outcomes', [])[:-1], model.get('call_outcomes', [])[:-1]
+        if impl['exc'] in (None, 'TimeoutError') and (len(io) != len(mo) or any(
+                not C.same(a, b) for a, b in zip(io, mo))):
+            diffs.append('call()s issued while this call() waited ended differently: impl=%r model=%r' % (io, mo))
     elif k in ('rooms',):
         if impl['exc'] or sorted(impl['result'] or []) != sorted(model['result'] or []):
             diffs.append('rooms(): impl=%r/%r model=%r' % (impl['result'], impl['exc'], model['result']))
@@ -832,6 +995,9 @@ def compare(op, impl, model):
             diffs.append('%s: impl exc=%r model raised=%r' % (k, impl['exc'], model['raised']))
         elif not impl['exc'] and k in ('get_session', 'session_block') and not C.same(impl['result'], model['result']):
             diffs.append('%s result: impl=%r model=%r' % (k, impl['result'], model['result']))
+    elif k == 'register':
+        if impl['exc']:
+            diffs.append('registering handlers at run time raised %s' % impl['exc'])
     elif k in ('frame', 'frameval', 'burst'):
         # exceptions escaping the message handler are contained (and logged) by engine.io
         ir = impl['raised'] or impl['handler_raised'] > 0
